@@ -350,7 +350,13 @@ def run_impl(case):
     stats = {'fam_' + case['fam']: 1}
 
     def fail(sig, what, step):
-        if len(fails) < 3:
+        # entries of the open finding must not crowd out other failures of the same history: they do not count towards the cap
+        if sig == 'use-after-delete':
+            if not any(f['sig'] == sig for f in fails):
+                fails.append({'sig': sig, 'what': '%s (shape %s, after %d ops: %s)' % (what, case['shape'], step + 1,
+                                                                                      case['ops'][:step + 1][-6:])})
+            return
+        if len([f for f in fails if f['sig'] != 'use-after-delete']) < 3:
             fails.append({'sig': sig, 'what': '%s (shape %s, after %d ops: %s)%s' % (
                 what, case['shape'], step + 1, case['ops'][:step + 1][-6:],
                 '; the first %d ops were LOADED FROM TEXT: %s' % (k0, ' '.join(model.sql.split('\n'))) if k0 else '')})
